@@ -1707,3 +1707,124 @@ def check_closed_stream_replaced(chk, unit, table="fstate", idx_global="fstate_i
                           "loop then reads from a FILE that was freed, and closes it a second time" % (f.name, f.loc(mine[0][1]) if mine else ""),
                    proof="every path from the fclose to a return stores another stream or pops the entry")
     return n
+
+
+# --------------------------------------------------------------------------- P10: comments and empty lines reach no handler
+def check_comment_filter(chk, unit, rule="P10", fname="spifconf_parse_line", normaliser="spiftool_chomp"):
+    """After the line buffer (a parameter) was normalised by `normaliser`, every CFG path to a call through a context
+    handler has passed a test of the buffer's first byte that excludes '#' and NUL (may-dataflow of the two still-possible
+    classes; switch and if edges refine).  Undecided - noted, never reported - when the classification cannot be read off
+    tests of `*param`: the value of a unit-local function that is handed the buffer is used, or the buffer has an alias."""
+    f = unit.functions.get(fname)
+    if f is None or f.cfg is None or f.body is None:
+        raise AnalysisBroken("%s not analysed" % fname)
+    pd = {p["d"]: p["n"] for p in (f.params or []) if p.get("tp")}
+
+    def is_buf(e):
+        e = X.strip(e) if e is not None else None
+        return e is not None and e.get("k") == "ref" and e.get("d") in pd
+
+    def first_byte(e):
+        e = X.strip(e) if e is not None else None
+        if e is None:
+            return False
+        if e.get("k") == "un" and e.get("op") == "*" and is_buf(e["ch"][0]):
+            return True
+        if e.get("k") in ("index", "subscript") and is_buf(e["ch"][0]) and X.const_val(e["ch"][1]) == 0:
+            return True
+        return False
+
+    norm = [c for c in X.calls_in(f.body) if X.callee_name(c) == normaliser and len(c["ch"]) > 1 and is_buf(c["ch"][1])]
+    hcs = {c["i"] for c, _a, _b in handler_calls(f) if is_buf(_a)}     # the deliveries of the line itself (not begin / end)
+    if not norm or not hcs:
+        chk.note("%s: %s has no %s(<line parameter>) call or no handler call of its own: not decided" % (rule, fname, normaliser))
+        return 0
+    # what the device cannot read
+    blind = []
+    for c in X.calls_in(f.body):
+        nm = X.callee_name(c)
+        g = unit.functions.get(nm) if nm else None
+        if g is None or g.body is None or nm == normaliser:
+            continue
+        if any(is_buf(a) or any(is_buf(y) for y in walk(a)) for a in c["ch"][1:]):
+            par = f.parent.get(c["i"])
+            while par is not None and par.get("k") in ("icast", "cast", "paren"):
+                par = f.parent.get(par["i"])
+            if par is None or par.get("k") not in ("block", "case", "default", "label"):
+                blind.append(nm)        # its value is used (or may be): the classification may live there
+    for x in walk(f.body):
+        if x.get("k") == "assign" and x.get("op") == "=" and not is_buf(x["ch"][0]) and is_buf(x["ch"][1]):
+            blind.append("alias")
+        if x.get("k") == "assign" and not first_byte(x["ch"][0]) and any(first_byte(y) for y in walk(x["ch"][1])):
+            blind.append("a copy of the first byte")
+        if x.get("k") == "decl":
+            for dcl in x.get("decls", ()):
+                if dcl.get("init") is not None and is_buf(dcl["init"]):
+                    blind.append("alias")
+                if dcl.get("init") is not None and any(first_byte(y) for y in walk(dcl["init"])):
+                    blind.append("a copy of the first byte")
+    OPEN = frozenset(("#", "NUL"))
+    cls = lambda v: "#" if v == 35 else ("NUL" if v == 0 else None)
+
+    def transfer(st, n, blk):
+        if n.get("k") == "call" and any(n is c for c in norm):
+            return OPEN
+        if n.get("k") == "assign" and is_buf(n["ch"][0]) and st != frozenset(("PRE",)):
+            return frozenset(("STALE",))
+        return st
+
+    def refine(st, cond, truth, blk):
+        if "PRE" in st or "STALE" in st:
+            return st
+        c = X.strip(cond)
+        if isinstance(truth, tuple):
+            if not first_byte(c):
+                return st
+            if truth[0] == "case":
+                k = cls(truth[1])
+                return st & frozenset((k,)) if k else frozenset()
+            return st - frozenset(cls(v) for v in (truth[1] if len(truth) > 1 else ()))
+        neg = False
+        while c is not None and c.get("k") == "un" and c.get("op") == "!":
+            neg = not neg
+            c = X.strip(c["ch"][0])
+        if c is None:
+            return st
+        if first_byte(c):                       # if (*buff) / if (!*buff)
+            nonzero = (truth is True) != neg
+            return st - frozenset(("NUL",)) if nonzero else st & frozenset(("NUL",))
+        if c.get("k") == "bin" and c.get("op") in ("==", "!="):
+            a, b = c["ch"][0], c["ch"][1]
+            v = X.const_val(b) if first_byte(a) else (X.const_val(a) if first_byte(b) else None)
+            if v is None or not (first_byte(a) or first_byte(b)):
+                return st
+            eq = ((truth is True) == (c["op"] == "==")) != neg
+            k = cls(v)
+            if eq:
+                return st & frozenset((k,)) if k else frozenset()
+            return st - frozenset((k,)) if k else st
+        return st
+
+    found = []
+
+    def visit(st, n, blk):
+        if n.get("k") == "call" and n.get("i") in hcs:
+            found.append((n, st))
+
+    flow.forward(f.cfg, frozenset(("PRE",)), transfer, refine=refine, join=lambda a, b: a | b, visit=visit)
+    n_sites = 0
+    for n, st in found:
+        open_ = sorted(st & OPEN)
+        if "PRE" in st and not open_:
+            continue
+        n_sites += 1
+        if open_ and blind:
+            chk.note("%s: %s: the handler call at %s is reached with %s not excluded by tests of the first byte, but the line is "
+                     "classified through %s: not decided" % (rule, fname, f.loc(n), "/".join(open_), ", ".join(sorted(set(blind)))))
+            continue
+        chk.ob(rule, fname, "comment-filter:%s" % f.loc(n), not open_, loc=f.loc(n),
+               detail="%s can reach the handler call at %s after %s() with the line's first byte still possibly %s: an indented comment or a "
+                      "blank-only line, which the white-space normalisation turns into a comment or an empty line, is delivered to the "
+                      "context's handler as an ordinary line" % (fname, f.loc(n), normaliser, " or ".join("'#'" if o == "#" else "NUL" for o in open_)),
+               proof="every path from %s() to this call passes a test of the first byte that excludes '#' and NUL" % normaliser)
+    return n_sites
